@@ -94,10 +94,10 @@ func main() {
 				plan.Batch = 300
 			}
 		}
-		if i == 8 {
-			// more objects in one WriteCompressed call than the Reader accepts in one object stream
-			cfg = prog.Config{VIdx: 7}
-			plan = prog.Plan{Batch: 10001, MaxOps: 1}
+		if i == 8 || (i == 5 && e.Thorough) {
+			// more objects in one WriteCompressed call than one object stream may hold: the batch is split
+			cfg = prog.Config{VIdx: 5 + i%3, Seek: i == 5}
+			plan = prog.Plan{Batch: map[int]int{8: 10001, 5: 20001}[i], MaxOps: 1, AfterClose: true}
 		}
 		res := prog.Run(e.Rand, cfg, plan)
 		class := fmt.Sprintf("v%d hr=%v seek=%v cipher=%d", cfg.VIdx, cfg.HR, cfg.Seek, cfg.Cipher())
@@ -124,14 +124,9 @@ func main() {
 		default:
 			rb := prog.Check(res)
 			e.Line("impl.obs", "%s result ok", id)
-			if rb.OpenErr == nil && res.HugeBatch {
-				// known finding: the members cannot be read; nothing to compare reference by reference
-				e.Line("impl.obs", "%s meta %d", id, cfg.VIdx)
-				e.Line("impl.obs", "%s selfcheck skipped", id)
-				e.Line("cases.txt", "%s %s Q 0", id, res.CaseLine())
-			} else if rb.OpenErr == nil {
+			if rb.OpenErr == nil {
 				e.Line("impl.obs", "%s meta %d", id, versionIndex(rb.Reader.GetMeta().Version))
-				if res.PreFilter || res.Sparse {
+				if res.PreFilter || res.Sparse || res.NOps > 5000 {
 					e.Line("impl.obs", "%s selfcheck skipped", id)
 				} else {
 					e.Line("impl.obs", "%s selfcheck 1", id)
@@ -142,7 +137,7 @@ func main() {
 				e.Line("cases.txt", "%s %s %s", id, res.CaseLine(), prog.QueryString(rb.Queries))
 			} else {
 				e.Line("impl.obs", "%s meta %d", id, cfg.VIdx)
-				if res.PreFilter || res.Sparse {
+				if res.PreFilter || res.Sparse || res.NOps > 5000 {
 					e.Line("impl.obs", "%s selfcheck skipped", id)
 				} else {
 					e.Line("impl.obs", "%s selfcheck 1", id)
@@ -150,7 +145,7 @@ func main() {
 				e.Line("cases.txt", "%s %s Q 0", id, res.CaseLine())
 			}
 			if res.AfterCloseAccepted != "" {
-				e.Fail("operation-after-close-accepted", "Put after Writer.Close returns nil: "+res.AfterCloseAccepted, res.Describe())
+				e.Fail("operation-after-close-accepted", "the closed Writer accepts operations: "+res.AfterCloseAccepted, res.Describe())
 			}
 			seen := map[string]bool{}
 			for _, f := range rb.Fails {
